@@ -7,279 +7,190 @@ namespace Kmip
 
 def Outcome.noPanic {α : Type} (o : Outcome α) : Prop := ∀ s, o ≠ .panic s
 
+theorem bind_np {α β : Type} (x : Outcome α) (f : α → Outcome β) (hx : x.noPanic) (hf : ∀ a, (f a).noPanic) :
+    (x.bind f).noPanic := by
+  intro s
+  cases x with
+  | ok a => exact hf a s
+  | err e => simp [Outcome.bind]
+  | panic p => exact absurd rfl (hx p)
+
+theorem ok_np {α : Type} (a : α) : (Outcome.ok a).noPanic := by intro s; simp
+theorem err_np {α : Type} (e : ErrClass) : (Outcome.err e : Outcome α).noPanic := by intro s; simp
+
+theorem wrap_np {α : Type} (o : Outcome α) (h : o.noPanic) : o.wrap.noPanic := by
+  intro s; cases o <;> simp_all [Outcome.wrap, Outcome.noPanic]
+
 theorem readFull_np (d : Dec) (k : Nat) : (readFull d k).noPanic := by
   intro s; unfold readFull; split <;> (try split) <;> simp
 
 theorem readByte_np (d : Dec) : (readByte d).noPanic := by
   intro s; unfold readByte; split <;> simp
 
-theorem internalReadTag_np (d : Dec) : (internalReadTag d).noPanic := by
-  intro s; unfold internalReadTag
-  have := readFull_np d 3
-  split <;> simp_all [Outcome.noPanic]
+theorem internalReadTag_np (d : Dec) : (internalReadTag d).noPanic :=
+  bind_np _ _ (readFull_np d 3) (fun _ => by repeat (first | exact ok_np _ | exact err_np _ | split))
 
 theorem readTag_np (d : Dec) : (readTag d).noPanic := by
-  intro s; unfold readTag; split
-  · simp
-  · exact internalReadTag_np d s
+  unfold readTag; split
+  · exact ok_np _
+  · exact internalReadTag_np d
 
 theorem peekTag_np (d : Dec) : (peekTag d).noPanic := by
-  intro s; unfold peekTag; split
-  · simp
-  · have := internalReadTag_np d
-    split <;> simp_all [Outcome.noPanic]
+  unfold peekTag; split
+  · exact ok_np _
+  · exact bind_np _ _ (internalReadTag_np d) (fun _ => by repeat (first | exact ok_np _ | exact err_np _ | split))
 
-theorem expectTag_np (d : Dec) (t : Nat) : (expectTag d t).noPanic := by
-  intro s; unfold expectTag
-  have := readTag_np d
-  split
-  · split <;> simp
-  · simp
-  · simp_all [Outcome.noPanic]
+theorem expectTag_np (d : Dec) (t : Nat) : (expectTag d t).noPanic :=
+  bind_np _ _ (readTag_np d) (fun _ => by repeat (first | exact ok_np _ | exact err_np _ | split))
 
-theorem expectType_np (d : Dec) (t : Nat) : (expectType d t).noPanic := by
-  intro s; unfold expectType
-  have := readByte_np d
-  split
-  · split <;> simp
-  · simp
-  · simp_all [Outcome.noPanic]
+theorem expectType_np (d : Dec) (t : Nat) : (expectType d t).noPanic :=
+  bind_np _ _ (readByte_np d) (fun _ => by repeat (first | exact ok_np _ | exact err_np _ | split))
 
-theorem readLength_np (d : Dec) : (readLength d).noPanic := by
-  intro s; unfold readLength
-  have := readFull_np d 4
-  split <;> simp_all [Outcome.noPanic]
+theorem readLength_np (d : Dec) : (readLength d).noPanic :=
+  bind_np _ _ (readFull_np d 4) (fun _ => by repeat (first | exact ok_np _ | exact err_np _ | split))
 
-theorem expectLength_np (d : Dec) (l : Nat) : (expectLength d l).noPanic := by
-  intro s; unfold expectLength
-  have := readLength_np d
-  split
-  · split <;> simp
-  · simp
-  · simp_all [Outcome.noPanic]
+theorem expectLength_np (d : Dec) (l : Nat) : (expectLength d l).noPanic :=
+  bind_np _ _ (readLength_np d) (fun _ => by repeat (first | exact ok_np _ | exact err_np _ | split))
 
-theorem readFixed_np (d : Dec) (tag ty len : Nat) : (readFixed d tag ty len).noPanic := by
-  intro s; unfold readFixed
-  have h1 := expectTag_np d tag
-  split
-  · rename_i d1 _
-    have h2 := expectType_np d1 ty
-    split
-    · rename_i d2 _
-      have h3 := expectLength_np d2 len
-      split
-      · rename_i d3 _; exact readFull_np d3 8 s
-      · simp
-      · simp_all [Outcome.noPanic]
-    · simp
-    · simp_all [Outcome.noPanic]
-  · simp
-  · simp_all [Outcome.noPanic]
+theorem readFixed_np (d : Dec) (tag ty len : Nat) : (readFixed d tag ty len).noPanic :=
+  bind_np _ _ (expectTag_np d tag) fun d1 =>
+  bind_np _ _ (expectType_np d1 ty) fun d2 =>
+  bind_np _ _ (expectLength_np d2 len) fun d3 => readFull_np d3 8
 
-theorem readVar_np (d : Dec) (tag ty : Nat) : (readVar d tag ty).noPanic := by
-  intro s; unfold readVar
-  have h1 := expectTag_np d tag
-  split
-  · rename_i d1 _
-    have h2 := expectType_np d1 ty
-    split
-    · rename_i d2 _
-      have h3 := readLength_np d2
-      split
-      · rename_i l d3 _
-        have h4 := readFull_np d3 l
-        split
-        · rename_i v d4 _
-          have h5 := readFull_np d4 (padLen l)
-          split <;> simp_all [Outcome.noPanic]
-        · simp
-        · simp_all [Outcome.noPanic]
-      · simp
-      · simp_all [Outcome.noPanic]
-    · simp
-    · simp_all [Outcome.noPanic]
-  · simp
-  · simp_all [Outcome.noPanic]
+theorem readVar_np (d : Dec) (tag ty : Nat) : (readVar d tag ty).noPanic :=
+  bind_np _ _ (expectTag_np d tag) fun d1 =>
+  bind_np _ _ (expectType_np d1 ty) fun d2 =>
+  bind_np _ _ (readLength_np d2) fun p =>
+  bind_np _ _ (readFull_np p.2 p.1) fun q =>
+  bind_np _ _ (readFull_np q.2 (padLen p.1)) fun _ => ok_np _
 
 theorem readPrim_np (d : Dec) (tag : Nat) (p : PTy) : (readPrim d tag p).noPanic := by
-  intro s
   cases p <;> simp only [readPrim]
-  all_goals first
-    | (have h := readFixed_np d tag 2 4; split <;> simp_all [Outcome.noPanic]; done)
-    | (have h := readFixed_np d tag 3 8; split <;> simp_all [Outcome.noPanic]; done)
-    | (have h := readFixed_np d tag 5 4; split <;> simp_all [Outcome.noPanic]; done)
-    | (have h := readFixed_np d tag 6 8; split <;> (try split) <;> simp_all [Outcome.noPanic]; done)
-    | (have h := readFixed_np d tag 9 8; split <;> simp_all [Outcome.noPanic]; done)
-    | (have h := readFixed_np d tag 10 4; split <;> simp_all [Outcome.noPanic]; done)
-    | (have h := readVar_np d tag 8; split <;> simp_all [Outcome.noPanic]; done)
-    | (have h := readVar_np d tag 7; split <;> simp_all [Outcome.noPanic]; done)
+  · exact bind_np _ _ (readFixed_np d tag 2 4) (fun _ => by repeat (first | exact ok_np _ | exact err_np _ | split))
+  · exact bind_np _ _ (readFixed_np d tag 3 8) (fun _ => by repeat (first | exact ok_np _ | exact err_np _ | split))
+  · exact bind_np _ _ (readFixed_np d tag 5 4) (fun _ => by repeat (first | exact ok_np _ | exact err_np _ | split))
+  · exact bind_np _ _ (readFixed_np d tag 6 8) (fun _ => by repeat (first | exact ok_np _ | exact err_np _ | split))
+  · exact bind_np _ _ (readVar_np d tag 8) (fun _ => by repeat (first | exact ok_np _ | exact err_np _ | split))
+  · exact bind_np _ _ (readVar_np d tag 7) (fun _ => by repeat (first | exact ok_np _ | exact err_np _ | split))
+  · exact bind_np _ _ (readFixed_np d tag 9 8) (fun _ => by repeat (first | exact ok_np _ | exact err_np _ | split))
+  · exact bind_np _ _ (readFixed_np d tag 10 4) (fun _ => by repeat (first | exact ok_np _ | exact err_np _ | split))
 
-theorem readSkip_np (d : Dec) (tag : Nat) : (readSkip d tag).noPanic := by
-  intro s; unfold readSkip
-  have h1 := expectTag_np d tag
-  split
-  · rename_i d1 _
-    have h2 := readByte_np d1
-    split
-    · rename_i d2 _
-      have h3 := readLength_np d2
-      split
-      · simp only; split <;> simp
-      · simp
-      · simp_all [Outcome.noPanic]
-    · simp
-    · simp_all [Outcome.noPanic]
-  · simp
-  · simp_all [Outcome.noPanic]
-
-theorem wrap_np {α : Type} (o : Outcome α) (h : o.noPanic) : o.wrap.noPanic := by
-  intro s; cases o <;> simp_all [Outcome.wrap, Outcome.noPanic]
+theorem readSkip_np (d : Dec) (tag : Nat) : (readSkip d tag).noPanic :=
+  bind_np _ _ (expectTag_np d tag) fun d1 =>
+  bind_np _ _ (readByte_np d1) fun _ =>
+  bind_np _ _ (readLength_np _) fun _ => by
+    repeat (first | exact ok_np _ | exact err_np _ | split | (show Outcome.noPanic (if _ then _ else _)))
 
 theorem sliceLoop_np (step : Dec → Outcome (Val × Nat × Dec)) (hs : ∀ d, (step d).noPanic) (ftag expected : Nat) :
     ∀ fuel dd n, (sliceLoop step ftag expected fuel dd n).noPanic := by
   intro fuel
   induction fuel with
-  | zero => intro dd n s; simp [sliceLoop]
+  | zero => intro dd n; simp only [sliceLoop]; exact err_np _
   | succ fuel ih =>
-    intro dd n s
+    intro dd n
     simp only [sliceLoop]
-    have h1 := wrap_np (step dd) (hs dd)
+    refine bind_np _ _ (wrap_np _ (hs dd)) fun a => ?_
+    obtain ⟨v, nn, dd1⟩ := a
+    show Outcome.noPanic (if (n + nn) % two32 ≥ expected then Outcome.ok ([v], n + nn, dd1) else _)
     split
-    · rename_i v nn dd1 _
+    · exact ok_np _
+    · refine bind_np _ _ (peekTag_np _) fun b => ?_
+      obtain ⟨tag, dd2⟩ := b
+      show Outcome.noPanic (if tag ≠ ftag then _ else _)
       split
-      · simp
-      · have h2 := peekTag_np dd1
-        split
-        · rename_i tag dd2 _
-          split
-          · simp
-          · have := ih dd2 (n + nn)
-            split <;> simp_all [Outcome.noPanic]
-        · simp
-        · simp_all [Outcome.noPanic]
-    · simp
-    · simp_all [Outcome.noPanic]
+      · exact ok_np _
+      · exact bind_np _ _ (ih _ _) (fun _ => by repeat (first | exact ok_np _ | exact err_np _ | split))
 
 mutual
   theorem decValue_np : ∀ (ty : FTy) (tag : Nat) (prev : List FV) (d : Dec), (decValue tag prev ty d).noPanic
     | .prim p, tag, prev, d => by simp only [decValue]; exact readPrim_np d tag p
     | .struct sd, tag, prev, d => by
-      simp only [decValue]; intro s; split
-      · exact decStruct_np sd tag d s
-      · simp
+      simp only [decValue]; split
+      · exact decStruct_np sd tag d
+      · exact err_np _
     | .dyn sel table, tag, prev, d => by
-      simp only [decValue]; intro s
+      simp only [decValue]
       split
-      · simp
+      · exact err_np _
       · split
-        · simp
-        · exact decDyn_np table tag prev _ d s
-    | .unsupported, tag, prev, d => by simp [decValue, Outcome.noPanic]
+        · exact err_np _
+        · exact decDyn_np table tag prev _ d
+    | .unsupported, tag, prev, d => by simp only [decValue]; exact err_np _
   theorem decDyn_np : ∀ (table : List DEnt) (tag : Nat) (prev : List FV) (k : Key) (d : Dec), (decDyn tag prev k table d).noPanic
-    | [], tag, prev, k, d => by simp [decDyn, Outcome.noPanic]
+    | [], tag, prev, k, d => by simp only [decDyn]; exact err_np _
     | .mk k' ptr (.prim p) :: rest, tag, prev, k, d => by
-      intro s
       rw [decDyn]
       by_cases hk : k' = k
       · rw [if_pos hk]
         by_cases hp : ptr = true ∨ p = PTy.interval
-        · rw [if_pos hp]; simp
-        · rw [if_neg hp]; exact readPrim_np d tag p s
-      · rw [if_neg hk]; exact decDyn_np rest tag prev k d s
+        · rw [if_pos hp]; exact err_np _
+        · rw [if_neg hp]; exact readPrim_np d tag p
+      · rw [if_neg hk]; exact decDyn_np rest tag prev k d
     | .mk k' ptr (.struct sd) :: rest, tag, prev, k, d => by
-      intro s
       rw [decDyn]
       by_cases hk : k' = k
       · rw [if_pos hk]
         by_cases hp : ptr = true
         · rw [if_pos hp]
           by_cases hd : sd.descOk = true
-          · rw [if_pos hd]; exact decStruct_np sd tag d s
-          · rw [if_neg hd]; simp
-        · rw [if_neg hp]; simp
-      · rw [if_neg hk]; exact decDyn_np rest tag prev k d s
+          · rw [if_pos hd]; exact decStruct_np sd tag d
+          · rw [if_neg hd]; exact err_np _
+        · rw [if_neg hp]; exact err_np _
+      · rw [if_neg hk]; exact decDyn_np rest tag prev k d
     | .mk k' ptr (.dyn sel table) :: rest, tag, prev, k, d => by
-      intro s
       rw [decDyn]
       by_cases hk : k' = k
-      · rw [if_pos hk]; simp
-      · rw [if_neg hk]; exact decDyn_np rest tag prev k d s
+      · rw [if_pos hk]; exact err_np _
+      · rw [if_neg hk]; exact decDyn_np rest tag prev k d
     | .mk k' ptr .unsupported :: rest, tag, prev, k, d => by
-      intro s
       rw [decDyn]
       by_cases hk : k' = k
-      · rw [if_pos hk]; simp
-      · rw [if_neg hk]; exact decDyn_np rest tag prev k d s
+      · rw [if_pos hk]; exact err_np _
+      · rw [if_neg hk]; exact decDyn_np rest tag prev k d
   theorem decStruct_np : ∀ (sd : SD) (tag : Nat) (d : Dec), (decStruct tag sd d).noPanic
     | .mk _ _ fields, tag, d => by
-      intro s
       simp only [decStruct]
-      have h1 := expectTag_np d tag
-      split
-      · rename_i d1 _
-        have h2 := expectType_np d1 structCode
-        split
-        · rename_i d2 _
-          have h3 := readLength_np d2
-          split
-          · rename_i expected d3 _
-            have h4 := decFields_np fields expected (limitDec d3 expected) 0 []
-            split
-            · split <;> simp
-            · simp
-            · simp_all [Outcome.noPanic]
-          · simp
-          · simp_all [Outcome.noPanic]
-        · simp
-        · simp_all [Outcome.noPanic]
-      · simp
-      · simp_all [Outcome.noPanic]
+      refine bind_np _ _ (expectTag_np d tag) fun d1 => ?_
+      refine bind_np _ _ (expectType_np d1 structCode) fun d2 => ?_
+      refine bind_np _ _ (readLength_np d2) fun p => ?_
+      refine bind_np _ _ (decFields_np fields p.1 (limitDec p.2 p.1) 0 []) fun q => ?_
+      repeat (first | exact ok_np _ | exact err_np _ | split)
   theorem decFields_np : ∀ (fs : List Fld) (expected : Nat) (dd : Dec) (n : Nat) (prev : List FV),
       (decFields fs expected dd n prev).noPanic
-    | [], expected, dd, n, prev => by simp [decFields, Outcome.noPanic]
+    | [], expected, dd, n, prev => by simp only [decFields]; exact ok_np _
     | f :: fs, expected, dd, n, prev => by
-      intro s
       simp only [decFields]
-      have h1 := decField_np f expected dd n prev
-      split
-      · rename_i fv n' dd' _
-        have h2 := decFields_np fs expected dd' n' (prev ++ [fv])
-        split <;> simp_all [Outcome.noPanic]
-      · simp
-      · simp_all [Outcome.noPanic]
+      refine bind_np _ _ (decField_np f expected dd n prev) fun a => ?_
+      exact bind_np _ _ (decFields_np fs expected a.2.2 a.2.1 (prev ++ [a.1])) (fun _ => by repeat (first | exact ok_np _ | exact err_np _ | split))
   theorem decField_np : ∀ (f : Fld) (expected : Nat) (dd : Dec) (n : Nat) (prev : List FV),
       (decField f expected dd n prev).noPanic
     | .mk name tag required slice skip ty, expected, dd, n, prev => by
-      intro s
       simp only [decField]
       have h1 := peekTag_np dd
       split
-      · split <;> simp
-      · simp_all [Outcome.noPanic]
+      · repeat (first | exact ok_np _ | exact err_np _ | split)
+      · rename_i s hs; exact absurd hs (h1 s)
       · rename_i t dd1 _
         split
-        · simp
+        · exact ok_np _
         · split
-          · have := wrap_np _ (readSkip_np dd1 tag)
-            split <;> simp_all [Outcome.noPanic]
+          · exact bind_np _ _ (wrap_np _ (readSkip_np dd1 tag)) (fun _ => by repeat (first | exact ok_np _ | exact err_np _ | split))
           · split
-            · have := sliceLoop_np (decValue tag prev ty) (fun d => decValue_np ty tag prev d) tag expected (dd1.win.length + 1) dd1 n
-              split <;> simp_all [Outcome.noPanic]
-            · have := wrap_np _ (decValue_np ty tag prev dd1)
-              split
-              · split <;> simp
-              · simp
-              · simp_all [Outcome.noPanic]
+            · exact bind_np _ _ (sliceLoop_np (decValue tag prev ty) (fun d => decValue_np ty tag prev d) tag expected _ dd1 n) (fun _ => by repeat (first | exact ok_np _ | exact err_np _ | split))
+            · refine bind_np _ _ (wrap_np _ (decValue_np ty tag prev dd1)) fun a => ?_
+              repeat (first | exact ok_np _ | exact err_np _ | split)
 end
 
 /-- Decode never panics, whatever the target and the bytes -/
 theorem decodeTop_np (t : Target) (bs : Bytes) (fin : Fin) : (decodeTop t bs fin).noPanic := by
-  intro s
   cases t <;> simp only [decodeTop]
-  all_goals try simp
-  rename_i sd
-  split
-  · exact decStruct_np sd sd.tag _ s
-  · simp
+  · exact err_np _
+  · exact err_np _
+  · exact err_np _
+  · exact err_np _
+  · rename_i sd
+    split
+    · exact decStruct_np sd sd.tag _
+    · exact err_np _
 
 end Kmip
